@@ -50,4 +50,22 @@ theorem ut0_le (j : ℚ) : ut0 j ≤ j ∧ j < ut0 j + 1 := by
   have h2 := Int.lt_floor_add_one (j - 1 / 2)
   constructor <;> linarith
 
+theorem pmod_nonneg (x y : ℚ) (hy : 0 < y) : 0 ≤ pmod x y := by
+  unfold pmod
+  rw [rat_floor_eq_floor]
+  have h := Int.floor_le (x / y)
+  have : (⌊x / y⌋ : ℚ) * y ≤ x := by rwa [le_div_iff₀ hy] at h
+  linarith
+
+/-- the operand of the final `% 1` of `mean_sidereal_time` is at least 0.27 (never a tiny negative number) -/
+theorem theta0_ge (jd0 : ℚ) : (0.27 : ℚ) ≤ theta0 jd0 := by
+  unfold theta0
+  have h := pmod_nonneg ((jd0 - 2451545.0) / 36525.0 * (8640184.812866 + (jd0 - 2451545.0) / 36525.0 * (0.093104 - 0.0000062 * ((jd0 - 2451545.0) / 36525.0)))) 86400.0 (by norm_num)
+  have h2 : 0 ≤ pmod ((jd0 - 2451545.0) / 36525.0 * (8640184.812866 + (jd0 - 2451545.0) / 36525.0 * (0.093104 - 0.0000062 * ((jd0 - 2451545.0) / 36525.0)))) 86400.0 / 86400.0 :=
+    div_nonneg h (by norm_num)
+  simp only
+  norm_num at h2 ⊢
+  linarith
+
+
 end Pymeeus.Refine
